@@ -31,11 +31,27 @@ def budget(tier):
     return dict(examples=3000 if tier == 'quick' else 150000)
 
 
+# last element: how the collection arguments are passed (all are documented Iterables):
+# 0 list, 1 tuple, 2 set, 3 generator, 4 iterator
 op_st = st.one_of(
     st.tuples(st.just('bypass'), st.integers(0, 40)),
-    st.tuples(st.just('keep'), st.integers(0, 4095)),
+    st.tuples(st.just('keep'), st.integers(0, 4095), st.integers(0, 4)),
     st.tuples(st.just('between'), st.lists(st.integers(0, 40), max_size=3),
-              st.lists(st.integers(0, 40), max_size=3), st.booleans(), st.booleans()))
+              st.lists(st.integers(0, 40), max_size=3), st.booleans(), st.booleans(),
+              st.integers(0, 4)))
+
+
+def as_container(items, kind):
+    items = list(items)
+    if kind == 1:
+        return tuple(items)
+    if kind == 2:
+        return set(items)
+    if kind == 3:
+        return (x for x in items)
+    if kind == 4:
+        return iter(items)
+    return items
 
 
 @st.composite
@@ -126,7 +142,9 @@ def evaluate(case):
                 want_members = members & keep
                 with quiet():
                     try:
-                        sched.keep_only([jobs[i] for i in sorted(keep)] + [SJob('stranger')])
+                        sched.keep_only(as_container(
+                            [jobs[i] for i in sorted(keep)] + [SJob('stranger')],
+                            op[2] if len(op) > 2 else 0))
                     except Exception as exc:
                         res.fail('C18:keep_only-raises', "%s: %r" % (tag, exc))
                         break
@@ -142,9 +160,14 @@ def evaluate(case):
                     want_members |= ends
                 with quiet():
                     try:
-                        sched.keep_only_between(starts=[jobs[i] for i in sorted(starts)],
-                                                ends=[jobs[i] for i in sorted(ends)],
-                                                keep_starts=op[3], keep_ends=op[4])
+                        kind = op[5] if len(op) > 5 else 0
+                        kw = {}
+                        # an empty milestone list may also be left out (None)
+                        if starts or kind != 1:
+                            kw['starts'] = as_container([jobs[i] for i in sorted(starts)], kind)
+                        if ends or kind != 1:
+                            kw['ends'] = as_container([jobs[i] for i in sorted(ends)], kind)
+                        sched.keep_only_between(keep_starts=op[3], keep_ends=op[4], **kw)
                     except Exception as exc:
                         res.fail('C18:keep_only_between-raises', "%s: %r" % (tag, exc))
                         break
